@@ -40,6 +40,41 @@ def field_users(prog, struct_short, field):
     return out
 
 
+def field_writers(prog, struct_short, field):
+    """functions (short names) that store to struct_short.field (a Store whose address is a FieldAddr of that field, or a
+    derived address inside it)"""
+    from engine.prog import short
+    out = set()
+    for f in prog.funcs.values():
+        defs = {}
+        for b in f.blocks:
+            for ins in b["instrs"]:
+                if "n" in ins:
+                    defs[ins["n"]] = ins
+
+        def is_field(v, depth=0):
+            if depth > 6 or not isinstance(v, dict) or v.get("k") != "reg":
+                return False
+            d = defs.get(v["n"])
+            if d is None:
+                return False
+            if d["op"] == "FieldAddr":
+                t = prog.under(d["xt"])
+                tid = t["elem"] if t["k"] == "ptr" else d["xt"]
+                if prog.types[tid]["k"] == "named" and short(prog.types[tid]["name"]) == struct_short and \
+                        prog.struct_fields(tid)[d["idx"]]["name"] == field:
+                    return True
+                return is_field(d["x"], depth + 1)
+            if d["op"] == "IndexAddr":
+                return is_field(d["x"], depth + 1)
+            return False
+        for b in f.blocks:
+            for ins in b["instrs"]:
+                if ins["op"] == "Store" and is_field(ins["addr"]):
+                    out.add(f.short)
+    return out
+
+
 def scan_lemma(name, compute, functions=()):
     """structural obligation decided on the exported SSA: compute(ctx) -> (ok: bool, detail: str)"""
     def run(ctx, eng, ce):
